@@ -157,7 +157,7 @@ def run(chk):
             rf = {k: x for k, x in ev[2]["out"].items() if k.startswith("f_")}; rf["icb"] = 0
             rr = [dict(r, out=({k: rf[k] for k in r["out"]} if r["e"] == "CtxCallAll" else r["out"])) for r in recs]
         else: rr = recs
-        chk.replay(rr, v, "context histories")
+        chk.replay(rr, v, "context histories", stateful="CtxReset")
     chk.exhaustive = True
     # ---- T: probes validated by TLC ----
     rng = random.Random(chk.seed)
